@@ -45,6 +45,11 @@ def run(ctx):
     rng = random.Random(ctx.seed + 11)
     n = 80 if ctx.quick else 1500
     progs = [fam2.c11_prog("p_%04d" % i, rng, ["attr", "derive"][i % 2]) for i in range(n)]
+    # every row of the field-case table in every run (structs of four fields, both entry points)
+    for entry in ("attr", "derive"):
+        queue = list(fam2.C11_FIELD_CASES)
+        while queue:
+            progs.append(fam2.c11_prog("p_%04d" % len(progs), rng, entry, cover=queue))
     # the converse: a wrapped string literal / path gets no Into, so a value that needs the conversion is the user's type error
     for j, (fty, ex_) in enumerate([("S8", '("abc")'), ("S8", "(C_CC)"), ("S8", "{ K::W }"), ("S8", '("abc", bound())'.replace('("abc", bound())', '("xy"), bound()'))]):
         text = ("#[derive_ex::derive_ex(Default)]\npub struct X { #[default(%s)] pub a: %s }\n\npub fn replay(_h: &str, _b: &[u8]) -> (bool, String) { (true, String::new()) }\n" % (ex_, fty))
